@@ -16,16 +16,18 @@ code can issue them (a submission takes a slot or parks, the writer's receive fr
 -/
 import ScyllaVerif.Model.StreamMap
 import ScyllaVerif.Model.Conn
+import ScyllaVerif.Generated.Constants
 
 namespace ScyllaVerif.ConnSched
 open ScyllaVerif.StreamMap ScyllaVerif.Conn
 
-/-- `mpsc::channel(1024)`. -/
-def chanCap : Nat := 1024
-/-- `OLD_ORPHAN_COUNT_THRESHOLD`. -/
-def orphanLimit : Nat := 1024
-/-- `OLD_AGE_ORPHAN_THRESHOLD` in ms. -/
-def orphanAge : Nat := 1000
+/-- `mpsc::channel(1024)` in `Connection::new` — the value is re-extracted from the source on every run
+(`tools/extract_tables.py`); `Props.C02.channel_capacity_is_1024` pins it and the hook's own channel to it. -/
+def chanCap : Nat := ScyllaVerif.Generated.submitChannelCapacity
+/-- `OLD_ORPHAN_COUNT_THRESHOLD` (extracted). -/
+def orphanLimit : Nat := ScyllaVerif.Generated.oldOrphanCountThreshold
+/-- `OLD_AGE_ORPHAN_THRESHOLD` in ms (extracted). -/
+def orphanAge : Nat := ScyllaVerif.Generated.oldAgeOrphanThresholdMs
 
 structure Sched where
   c : Conn
@@ -60,8 +62,13 @@ def grant1 (s : Sched) : Sched :=
   | some r => { s with granted := s.granted ++ [r] }
   | none => s
 
-/-- `old_orphans_count()`. -/
-def oldOrphans (s : Sched) : Nat := (s.ages.filter (fun p => p.2 + orphanAge ≤ s.clock)).length
+/-- `old_orphans_count()` = `by_orphaning_times.range(..(now - 1 s, i16::MAX)).count()`: the entries `(time, id)`
+strictly below `(now - 1 s, 32767)` in the lexicographic order — orphaned more than a second ago, or exactly a
+second ago on a stream id other than 32767. -/
+def isOldOrphan (clock : Nat) (p : Nat × Nat) : Bool :=
+  decide (p.2 + orphanAge < clock) || (decide (p.2 + orphanAge = clock) && decide (p.1 < 32767))
+
+def oldOrphans (s : Sched) : Nat := (s.ages.filter (isOldOrphan s.clock)).length
 
 inductive SEv where
   | submit                 -- a caller enters `send_request`: it takes a slot of the channel, or parks
